@@ -62,7 +62,8 @@ def _add_source(mapping_graph, source, source_bnode):
 
 
 def _add_template(mapping_graph, term_map_bnode, yarrrml_template):
-    if yarrrml_template.startswith('$(') and yarrrml_template.count('$(') == 1:
+    if yarrrml_template.startswith('$(') and yarrrml_template.count('$(') == 1 \
+            and yarrrml_template.find(')') == len(yarrrml_template) - 1:
         # a YARRRML template may be composed of simply one reference
         # in that case the YARRRML template corresponds to an RML reference
         mapping_graph.add((term_map_bnode, rdflib.term.URIRef(RML_REFERENCE), rdflib.term.Literal(yarrrml_template[2:-1])))
